@@ -117,7 +117,15 @@ func (exp *SplitExp) FindTypedRefs(list []*BoundReference,
 	case *ArrayExp:
 		innerType = lookup.GetArray(t, 1)
 	case *MergeExp:
-		tt, err := lookup.AddDim(t, exp.CallMode())
+		// The collection being split is the merge, so the dimension it
+		// adds to the type is the one of the call it merges over, which
+		// when the elements are themselves collections (an array of
+		// typed maps) is not the mode of the elements.
+		mode := val.CallMode()
+		if mode != ModeArrayCall && mode != ModeMapCall {
+			mode = exp.CallMode()
+		}
+		tt, err := lookup.AddDim(t, mode)
 		if err != nil {
 			return list, err
 		}
